@@ -155,6 +155,8 @@ def native_replay(path, tier="quick", timeout=300):
     m = re.search(r"VX-VERDICT: (\S+) ?(.*)", out)
     if m:
         return m.group(1), m.group(2).strip()
+    if "vxAssumeFailed" in out:
+        return "ASSUME-FAILED", "an assumption of the harness does not hold for the replayed values"
     if "fatal error: stack overflow" in out or "goroutine stack exceeds" in out:
         return "VIOLATION", "fatal error: stack overflow"
     if "panic:" in out or "fatal error:" in out:
@@ -368,6 +370,12 @@ def main():
 
 
 def native_replay_pkg(v, r, tier):
+    if v.get("kind") == "deadlock":
+        return native_replay_pkg2(v, r, tier, 60)
+    return native_replay_pkg2(v, r, tier, 300)
+
+
+def native_replay_pkg2(v, r, tier, timeout):
     p = v.get("replay")
     if not p or not os.path.exists(p):
         return "ERROR", "no replay file"
@@ -377,7 +385,7 @@ def native_replay_pkg(v, r, tier):
     json.dump(rf, open(p, "w"), indent=1)
     if rf.get("values") is None:
         return "ERROR", "model extraction failed"
-    return native_replay(p, tier)
+    return native_replay(p, tier, timeout)
 
 
 def write_evidence(pid, tier, seed, spec, results, viol, known_hits, inconclusive, selftests_ok, replays_done, wall, extra_cov=None):
